@@ -1,30 +1,39 @@
 //! Languages whose generated `weak_shape_inplace` is extracted from the macro expansion (unit U3, C16).
 //! One variant per combination of field kinds the derive macro supports: plain slots, child e-classes,
-//! binders (single, nested, before / after a free child, two binders), payloads; plus the shapes of the
-//! five test languages of /repo/tests (arith, lambda, rise, sdql, var).
+//! binders (single, nested, before / after a free child, two binders), payloads; plus the variant shapes of the
+//! test languages of /repo/tests (arith, lambda, rise, sdql, var).  Split into small enums to keep each
+//! generated function a small verification query.
 use slotted_egraphs::*;
 
 define_language! {
-    pub enum VL {
-        // one field of each kind
+    pub enum VL1 {
         Var(Slot) = "var",
         Two(Slot, Slot) = "two",
         App(AppliedId, AppliedId) = "app",
         Lam(Bind<AppliedId>) = "lam",
         Let(Bind<AppliedId>, AppliedId) = "let",
         LetRev(AppliedId, Bind<AppliedId>) = "letrev",
+    }
+}
+define_language! {
+    pub enum VL2 {
         Nest(Bind<Bind<AppliedId>>) = "nest",
         TwoBinds(Bind<AppliedId>, Bind<AppliedId>) = "twobinds",
         SlotThenBind(Slot, Bind<AppliedId>) = "slotthenbind",
         Num(u32),
         Sym(Symbol),
         Mixed(u32, Slot, AppliedId, Bind<Slot>) = "mixed",
-        // shapes of the test languages (tests/*/mod.rs)
+    }
+}
+// shapes of the test languages: tests/lambda (Lam/App/Var/Let), tests/arith (Add/Mul/Number/Symbol + lambda),
+// tests/rise (Lam/App/Var/Let/Number/Symbol), tests/sdql (Sum(Bind, Bind-body)...), tests/var
+define_language! {
+    pub enum VL3 {
         Sum(Bind<AppliedId>) = "sum",
         Add(AppliedId, AppliedId) = "add",
-        Fun(Bind<AppliedId>) = "fun",
         Fix(Bind<AppliedId>) = "fix",
-        Sing(AppliedId, AppliedId) = "sing",
-        Range(AppliedId, AppliedId) = "range",
+        SumRange(Bind<Bind<AppliedId>>, AppliedId) = "sumrange",
+        Number(u32),
+        Symb(Symbol),
     }
 }
